@@ -217,10 +217,13 @@ def systematic_resample(
     positions = (np.random.random() + np.arange(size)) / size
 
     j = 0
+    # Rounding in the running sum (or a sum just below one) must not push the
+    # comb past the last sample with non-zero weight.
+    j_max = int(np.max(np.nonzero(weights)[0]))
     cumulative_sum = weights[0]
     indeces = np.empty(size, dtype=int)
     for i in range(size):
-        while positions[i] > cumulative_sum:
+        while positions[i] > cumulative_sum and j < j_max:
             j += 1
             cumulative_sum += weights[j]
         indeces[i] = j
